@@ -224,6 +224,9 @@ class G:
             mx = r.choice([0, 1, 9, 10, 11, 100])
             self.alpha.update("019")
             return self.vis("maximum_rule< unsigned char, %d >" % mx, self.add("MAXIMUM_RULE", a0=0, a1=mx, a2=8))
+        if k == "maxrule5":
+            self.alpha.update("037")
+            return self.vis("maximum_rule< unsigned char, 5 >", self.add("MAXIMUM_RULE", a0=0, a1=5, a2=8))
         if k == "rep_one_min_max":
             lo = r.randint(0, 2)
             hi = lo + r.randint(0, 2)
@@ -822,6 +825,58 @@ def cyc_grammar(tu, gname, rnd, tmpl, arity, nums, slot, filler, variant):
     return g
 
 
+# progress cells (C11): a repetition whose body is a rule that the analysis takes to consume at least one byte whenever it
+# succeeds (analyze_any_traits): analyze() certifies the grammar, so the real parser must terminate on every input
+PROG_ATOMS = ["maxrule5", "maximum_rule", "unsigned_rule", "signed_rule", "rep_one_min_max", "raw_string", "u8any", "u8one", "bytes", "string", "istring", "eol",
+              "pred_not", "pred_or", "rep_string", "one", "range", "uint8_mask", "any"]
+PROG_LOOPS = ["star", "plus", "until_eof", "list_optsep", "star_optsep", "rep_min", "star_sor"]
+
+
+def prog_grammar(tu, gname, rnd, atom, loop):
+    g = G(tu, gname, rnd, "cyc", "C11")
+    g.cell = "progress:%s:%s" % (atom, loop)
+    x = g.atom(atom)
+    sep = lambda: g.op("opt", [g.atom("one", ",")])
+    g.alpha.update(",")
+    if loop == "star":
+        c = g.op("star", [x])
+    elif loop == "plus":
+        c = g.op("plus", [x])
+    elif loop == "until_eof":
+        c = g.op("until", [g.atom("eof"), x])
+    elif loop == "list_optsep":
+        c = g.op("list", [x, sep()])
+    elif loop == "star_optsep":
+        c = g.op("star", [x, sep()])
+    elif loop == "rep_min":
+        c = g.op("rep_min", [x], (1,))
+    else:
+        c = g.op("star", [g.op("sor", [x, g.atom("one", ",")])])
+    top = g.op("seq", [c, g.op("star", [g.atom("any")])])
+    g.single(top[0], top[1])
+    return g
+
+
+# name cells (C11, profile cycn): analyze() identifies rules by their demangled names (one code path per compiler). Two
+# different unnamed instantiations that agree up to a punctuation character argument -- the first one harmless, the second
+# one looping -- must stay two rules: the grammar has to be reported. Built with clang and with gcc.
+NAME_CHARS = [";", ",", ">", "<", " ", ")", "]", "=", "'", "(", "[", ":", "&", "*"]
+
+
+def name_grammar(tu, gname, rnd, ch, order):
+    g = G(tu, gname, rnd, "cyc", "C11")
+    g.cell = "names:%s:%d" % ({" ": "space", "'": "quote"}.get(ch, ch), order)
+    g.alpha.update("ab" + ch)
+    p = lambda: g.vis("one< %s >" % cch(ch), g.add("ONE", ch))
+    harmless = g.op("star", [g.op("sor", [p(), g.atom("one", "b")])])
+    looping = g.op("star", [g.op("sor", [p(), g.op("opt", [g.atom("one", "a")])])])
+    word = g.op("plus", [g.atom("one", "a")])
+    parts = [harmless, word, looping] if order == 0 else [g.op("opt", [harmless]), word, g.op("opt", [looping])]
+    top = g.op("seq", parts + [g.atom("eof")])
+    g.single(top[0], top[1])
+    return g
+
+
 def cyc_cells():
     cells = []
     for (tmpl, arity, nums, prop) in [t for t in CTX_TEMPLATES if not t[0].endswith("_msg")] + CYC_EXTRA:
@@ -1021,14 +1076,27 @@ def make_tus(profile, seed, count, per_tu=10, prop=None):
         rnd.shuffle(cells)
         if count and count < len(cells):
             cells = cells[:count]
+        cells = [("prog", a, l) for a in PROG_ATOMS for l in PROG_LOOPS] + cells
         gi = 0
         for i in range(0, len(cells), per_tu):
             tu = TU()
-            for (tmpl, arity, nums, slot, filler, variant) in cells[i:i + per_tu]:
-                tu.grammars.append(cyc_grammar(tu, "g%d" % gi, rnd, tmpl, arity, nums, slot, filler, variant))
+            for cellspec in cells[i:i + per_tu]:
+                if cellspec[0] == "prog":
+                    tu.grammars.append(prog_grammar(tu, "g%d" % gi, rnd, cellspec[1], cellspec[2]))
+                else:
+                    (tmpl, arity, nums, slot, filler, variant) = cellspec
+                    tu.grammars.append(cyc_grammar(tu, "g%d" % gi, rnd, tmpl, arity, nums, slot, filler, variant))
                 gi += 1
             tus.append(("cyc-%d-%d" % (seed, i // per_tu), emit_tu(tu, seed * 977 + i), len(tu.grammars)))
         return tus
+    if profile == "cycn":
+        tu = TU()
+        gi = 0
+        for ch in NAME_CHARS:
+            for order in (0, 1):
+                tu.grammars.append(name_grammar(tu, "g%d" % gi, rnd, ch, order))
+                gi += 1
+        return [("cycn-%d-0" % seed, emit_tu(tu, seed * 977), len(tu.grammars))]
     if profile == "chain":
         gi = 0
         specs = [(k, t, sh) for sh in (0, 1) for k in (5, 6, 7, 8, 9, 10, 11, 12) for t in (False, True)]
